@@ -1,94 +1,57 @@
-import GS.Spec.Formula
+import GS.Model.BfUnique
 /-!
-# GS.Model.Bf — mirror of package `bf` (`/repo/bf/bf.go`): node types, builders, `nnf`, `cnfRec`, `Dimacs`
+# GS.Model.Bf — mirror of package `bf` (`/repo/bf/bf.go`): `nnf`, `cnfRec`, `Dimacs`
 
-Core-only. A Go `variable{name, dummy}` is the key `(n, dummy)`: the name is a number (the
-harness uses the one-letter name `'a' + n`), `dummy` is the Go flag.  Go's `interface` node
-types become the nested inductive `F`; the maps `vars.all` / `vars.pb` become one association
-list in insertion order (`pb` = the entries whose key is not a dummy created by `dummy()`).
+Core-only. The node types, `Eval` and the builders are in `GS/Model/BfBase.lean`, `uniqueRec` in
+`GS/Model/BfUnique.lean`. The maps `vars.all` / `vars.pb` become one association list in
+insertion order (`pb` = the entries whose key is not a dummy created by `dummy()`).
+
+`Unique(names...)` is the node `F.unique` (any number of names). `nnf` replaces it
+
+* where it must hold (`unique.nnf()`), by `uniqueRec(u...).nnf()`: `uniqueSmall` up to 4 names,
+  the grid encoding with `line-…` / `col-…` dummy variables above (integer grid dimensions
+  `natDims`, dummy names `natName`);
+* where it must not hold (`not.nnf`, case `unique`), by `u.negation().nnf()`: "none, or two of
+  them", without any dummy variable.
 -/
 namespace GS.Bf
+open GS.BfUnique
 
-/-- `variable{name: n, dummy: d}` -/
-abbrev Key := Nat × Bool
+/-! ### spec formulas as Go formulas -/
 
-/-- the Go node types `variable`, `lit`, `not`, `and`, `or`, `trueConst`, `falseConst` -/
-inductive F where
-  | var (n : Nat) (dummy : Bool)
-  | lit (n : Nat) (dummy : Bool) (neg : Bool)
-  | not (f : F)
-  | and (fs : List F)
-  | or (fs : List F)
-  | tt
-  | ff
-deriving Repr, Inhabited
-
-/-! ### `Eval` -/
+/-- largest exactly-one group in positive position for which the op `bfdimacs` answers -/
+def maxPosGroup : Nat := 16
 
 mutual
-/-- `Formula.Eval` (the Go `and.Eval` / `or.Eval` loops compute the plain conjunction /
-    disjunction, `true` / `false` when there is no child) -/
-def eval (m : Key → Bool) : F → Bool
-  | .var n d => m (n, d)
-  | .lit n d neg => m (n, d) != neg
-  | .not f => !eval m f
-  | .and fs => evalAll m fs
-  | .or fs => evalAny m fs
-  | .tt => true
-  | .ff => false
-def evalAll (m : Key → Bool) : List F → Bool
-  | [] => true
-  | f :: fs => eval m f && evalAll m fs
-def evalAny (m : Key → Bool) : List F → Bool
-  | [] => false
-  | f :: fs => eval m f || evalAny m fs
+/-- `supportedP neg g`: what the driver op `bfdimacs` answers for (it says `unsupported`
+    otherwise). `neg` is the polarity of the position (`true` under an odd number of negations;
+    both polarities occur inside `Eq` / `Xor`, the left of `Implies` is negated).
+    A `unique` group in **negative** position is always supported (any number of names: no dummy
+    variable). A group in **positive** position is supported up to `maxPosGroup` names: above 4
+    names the mirror computes the dummy keys `natName` (numbers whose size doubles with every
+    name of the group), which is exact but too slow for long groups. -/
+def supportedP : Bool → SF → Bool
+  | _, .var _ => true
+  | _, .tt => true
+  | _, .ff => true
+  | b, .not f => supportedP (!b) f
+  | b, .and fs => supportedAllP b fs
+  | b, .or fs => supportedAllP b fs
+  | b, .imp x y => supportedP (!b) x && supportedP b y
+  | b, .iff x y => (supportedP (!b) x && supportedP b y) && (supportedP b x && supportedP (!b) y)
+  | b, .xor x y => (supportedP (!b) x && supportedP (!b) y) && (supportedP b x && supportedP b y)
+  | b, .unique ns => b || decide (ns.length ≤ maxPosGroup)
+def supportedAllP : Bool → List SF → Bool
+  | _, [] => true
+  | b, f :: fs => supportedP b f && supportedAllP b fs
 end
 
-/-! ### Builders -/
-
-/-- `Var(name)` -/
-def pbVar (n : Nat) : F := .var n false
-/-- `Implies(f1, f2) = or{not{f1}, f2}` -/
-def implies (f1 f2 : F) : F := .or [.not f1, f2]
-/-- `Eq(f1, f2) = and{or{not{f1}, f2}, or{f1, not{f2}}}` -/
-def eq (f1 f2 : F) : F := .and [.or [.not f1, f2], .or [f1, .not f2]]
-/-- `Xor(f1, f2) = and{or{not{f1}, not{f2}}, or{f1, f2}}` -/
-def xor (f1 f2 : F) : F := .and [.or [.not f1, .not f2], .or [f1, f2]]
-
-/-- the double loop of `uniqueSmall`: for `i < j`, in lexicographic order, `Or(Not(vᵢ), Not(vⱼ))` -/
-def pairsNot : List F → List F
-  | [] => []
-  | v :: vs => vs.map (fun w => F.or [.not v, .not w]) ++ pairsNot vs
-
-/-- `uniqueSmall(vars...)` on already built variables -/
-def uniqueSmallV (vs : List F) : F := .and (.or vs :: pairsNot vs)
-
-/-- `uniqueSmall` on the problem variables named `ns` (what `Unique(ns...)` returns when
-    `len(ns) ≤ 4`) -/
-def uniqueSmall (ns : List Nat) : F := uniqueSmallV (ns.map pbVar)
-
-/- `supported`: every `unique` group has at most 4 names: `Unique` goes through `uniqueSmall`
-   only (`uniqueRec`, with its floating-point square root, is not mirrored). -/
-mutual
-def supported : SF → Bool
-  | .var _ => true
-  | .tt => true
-  | .ff => true
-  | .not f => supported f
-  | .and fs => supportedAll fs
-  | .or fs => supportedAll fs
-  | .imp a b => supported a && supported b
-  | .iff a b => supported a && supported b
-  | .xor a b => supported a && supported b
-  | .unique ns => decide (ns.length ≤ 4)
-def supportedAll : List SF → Bool
-  | [] => true
-  | f :: fs => supported f && supportedAll fs
-end
+/-- the formulas `bfdimacs` answers for: every exactly-one group *in positive position* has at
+    most `maxPosGroup` names (no restriction on the groups in negative position) -/
+def supported (g : SF) : Bool := supportedP false g
 
 mutual
-/-- the Go formula the harness builds from a spec formula (`FNode.toGo`); faithful on
-    `supported` formulas -/
+/-- the Go formula the harness builds from a spec formula (`FNode.toGo`), for every spec formula -/
 def ofSF : SF → F
   | .var n => pbVar n
   | .tt => .tt
@@ -99,7 +62,7 @@ def ofSF : SF → F
   | .imp a b => implies (ofSF a) (ofSF b)
   | .iff a b => eq (ofSF a) (ofSF b)
   | .xor a b => xor (ofSF a) (ofSF b)
-  | .unique ns => uniqueSmall ns
+  | .unique ns => uniqueOf ns
 def ofSFs : List SF → List F
   | [] => []
   | f :: fs => ofSF f :: ofSFs fs
@@ -131,24 +94,43 @@ def orFold : List F → List F → F
   | g :: rest, acc => orFold rest (acc ++ [g])
 
 mutual
-/-- `nnfP false f = f.nnf()`, `nnfP true f = not{f}.nnf()` -/
-def nnfP : Bool → F → F
+/-- the recursion of `nnf` with the polarity as a parameter: `nnfPX X false f = f.nnf()`,
+    `nnfPX X true f = not{f}.nnf()`, where `X b ks` is the result on a `unique` node (`X false`:
+    `unique.nnf()`, `X true`: the case `unique` of `not.nnf`). Go normalises there *another*
+    formula (`uniqueRec(u...)`, resp. `u.negation()`), which contains no `unique` node: the
+    recursion is tied in two steps, `nnf0P` then `nnfP`. -/
+def nnfPX (X : Bool → List Key → F) : Bool → F → F
   | false, .var n d => .lit n d false
   | true,  .var n d => .lit n d true
   | b, .lit n d neg => .lit n d (neg != b)
-  | b, .not f => nnfP (!b) f
-  | false, .and fs => andFold (nnfPs false fs) []
-  | true,  .and fs => orFold (nnfPs true fs) []
-  | false, .or fs => orFold (nnfPs false fs) []
-  | true,  .or fs => andFold (nnfPs true fs) []
+  | b, .not f => nnfPX X (!b) f
+  | false, .and fs => andFold (nnfPsX X false fs) []
+  | true,  .and fs => orFold (nnfPsX X true fs) []
+  | false, .or fs => orFold (nnfPsX X false fs) []
+  | true,  .or fs => andFold (nnfPsX X true fs) []
   | false, .tt => .tt
   | true,  .tt => .ff
   | false, .ff => .ff
   | true,  .ff => .tt
-def nnfPs : Bool → List F → List F
+  | b, .unique ks => X b ks
+def nnfPsX (X : Bool → List Key → F) : Bool → List F → List F
   | _, [] => []
-  | b, f :: fs => nnfP b f :: nnfPs b fs
+  | b, f :: fs => nnfPX X b f :: nnfPsX X b fs
 end
+
+/-- `nnf` on the formulas without `unique` node (the value on such a node is never used) -/
+def nnf0P : Bool → F → F := nnfPX (fun _ _ => .ff)
+
+/-- `unique.nnf()` = `uniqueRec(u...).nnf()` (`b = false`) and the case `unique` of `not.nnf`,
+    `f.negation().nnf()` (`b = true`) -/
+def uniqueXD (dims : Nat → Nat × Nat) (b : Bool) (ks : List Key) : F :=
+  nnf0P false (if b then negation ks else uniqueRec dims ks)
+/-- with the integer grid dimensions `natDims` -/
+def uniqueX : Bool → List Key → F := uniqueXD natDims
+
+/-- `nnfP false f = f.nnf()`, `nnfP true f = not{f}.nnf()` -/
+def nnfP : Bool → F → F := nnfPX uniqueX
+def nnfPs : Bool → List F → List F := nnfPsX uniqueX
 
 /-- `f.nnf()` -/
 def nnf (f : F) : F := nnfP false f
@@ -167,10 +149,10 @@ def litValue (t : Tbl) (k : Key) (neg : Bool) : Int × Tbl :=
     (if neg then -(v : Int) else (v : Int), t ++ [(k, v)])
 
 /-- `vars.dummy()`: the fresh index and the new table (the Go name `dummy-<val>` is the key
-    `(val, true)`) -/
+    `(2 * val, true)`: an even number, the `line-…` / `col-…` dummies of `uniqueRec` have an odd one) -/
 def dummy (t : Tbl) : Nat × Tbl :=
   let v := t.length + 1
-  (v, t ++ [((v, true), v)])
+  (v, t ++ [((2 * v, true), v)])
 
 mutual
 /-- `cnfRec(f, vars)`: clauses and new table; `none` is a Go `panic` -/
@@ -187,6 +169,7 @@ def cnfRec : F → Tbl → Option (List (List Int) × Tbl)
   | .ff, t => some ([[]], t)
   | .var _ _, _ => none        -- panic("invalid NNF formula")
   | .not _, _ => none          -- panic("invalid NNF formula")
+  | .unique _, _ => none       -- panic("invalid NNF formula")
 /-- the loop of the `and` case (also the inner loop over `sub2` in the `or` case) -/
 def cnfAnd : List F → Tbl → Option (List (List Int) × Tbl)
   | [], t => some ([], t)
